@@ -1,7 +1,10 @@
 #!/bin/sh
-# Build the simulator (both profiles) from files on disk only.
+# Build the simulator (both profiles) from files on disk only, then prove that it
+# is deterministic and that scenarios survive the replay-file round trip.
 set -e
-cd "$(dirname "$0")/sim"
+ROOT="$(cd "$(dirname "$0")" && pwd)"
+cd "$ROOT/sim"
 export CARGO_NET_OFFLINE=true
 cargo build --release --offline 2>&1 | tail -3
 cargo build --profile checked --offline 2>&1 | tail -3
+"$ROOT/selftest.sh" 1000
